@@ -161,6 +161,11 @@ def _one_message(rnd, cfg, relay, got, edge_rcpt, clients, live, msgno):
         rcpts[k] = rnd.choice(['reject5', 'reject4']) + '-%d@example.com' % k
         if len(rcpts) > 2 and rnd.random() < 0.5:
             rcpts.insert(rnd.randrange(len(rcpts)), rcpts[0])
+        if cfg.get('rcpt_reject_all') and msgno == 0:
+            # every recipient of the first message refused, for good and for now: nothing is left of that transaction when
+            # the next message travels over the same connection
+            rcpts = ['reject%d-%d@example.com' % (5 if j % 2 == 0 else 4, j) for j in range(max(2, len(rcpts)))]
+            rnd.shuffle(rcpts)
     hdr = rnd.choice(HEADERS)
     body = rnd.choice(BODIES)
     if cfg.get('big') and msgno == 0:
@@ -201,7 +206,8 @@ def _one_message(rnd, cfg, relay, got, edge_rcpt, clients, live, msgno):
         res['edge_per'] = []                   # edge says to the RCPT / DATA commands PIPELINING had already sent
         res['per'] = []
     elif edge_rcpt and all(c != 250 for c in edge_rcpt):
-        res['edge_code'] = edge_rcpt[0]        # no recipient accepted: the transaction ended with the edge's RCPT replies
+        # no recipient accepted: the transaction ended with the edge's RCPT replies (of either class when they differ)
+        res['edge_code'] = res['relay_code'] if res['relay_code'] in edge_rcpt else edge_rcpt[0]
     ev = list(got)
     if clients:
         advertised = sorted(live[-1].extensions.extensions.keys()) if live and not cfg['helo_fallback'] else []
@@ -294,6 +300,7 @@ def main():
                'size': rnd.choice([0, 0, 100000]), 'auth': rnd.random() < 0.3, 'helo_fallback': rnd.random() < 0.12,
                'reject': rnd.choice([0, 0, 0, 0, 451, 554]), 'rcpt_reject': rnd.random() < 0.25,
                'big': rnd.choice([0, 0, 0, 0, 0, 300, 2500]) if quick or rnd.random() < 0.9 else 6000}
+        cfg['rcpt_reject_all'] = cfg['rcpt_reject'] and rnd.random() < 0.4
         if cfg['rcpt_reject']:
             cfg['reject'] = 0
         cfg['mail_reject'] = rnd.choice([450, 550, 421]) if rnd.random() < 0.15 else 0
@@ -303,6 +310,8 @@ def main():
         cfg['tls'] = rnd.random() < 0.3 and not cfg['helo_fallback']       # STARTTLS offered: the relay upgrades, then EHLO again
         cfg['reuse'] = rnd.random() < 0.35 and cfg['mail_reject'] != 421     # after a 421 the edge closes: nothing to reuse
         cfg['nmsg'] = rnd.randint(2, 3) if cfg['reuse'] else 1
+        if it < 2:          # directed: a first message whose recipients are all refused, then another one over the same connection
+            cfg.update(rcpt_reject=True, rcpt_reject_all=True, reject=0, mail_reject=0, reuse=True, nmsg=2 + it)
         for k, (sent, ev) in enumerate(smtp_hop(rnd, cfg)):
             stats['executions'] += 1
             cls = 'smtp' + ('-helo' if cfg['helo_fallback'] else '') + ('-reject' if cfg['reject'] else '') + ('-rcptreject' if cfg['rcpt_reject'] else '') + ('-mailreject' if cfg['mail_reject'] else '') + ('-big' if cfg['big'] else '') + ('-reuse%d' % k if cfg['reuse'] else '') + ('-tls' if cfg['tls'] else '')
@@ -310,7 +319,7 @@ def main():
                                separators=(',', ':')) + '\n')
             n += 1
     for it in range(10 if quick else 250):
-        cfg = {'reuse': rnd.random() < 0.6, 'nmsg': rnd.randint(1, 3), 'reject': rnd.choice([[0], [0], [0, 451, 554], [451], [554]]),
+        cfg = {'reuse': rnd.random() < 0.6, 'nmsg': rnd.randint(1, 3), 'reject': rnd.choice([[0], [0], [0, 451, 554, 535], [451], [554], [535]]),
                'big': rnd.choice([0, 0, 300, 2500])}
         for k, (sent, ev, reject) in enumerate(http_hop(rnd, cfg)):
             stats['executions'] += 1
